@@ -76,7 +76,7 @@ class ContextCal:
 @dataclass(frozen=True)
 class IntEnc:
     bits: int
-    encoding: str = "unsigned"  # unsigned | signed | twosComplement
+    encoding: str = "unsigned"  # unsigned | signed | twosComplement | twosCompliment (XTCE 1.1 spelling)
     little: bool = False
     default_cal: object = None
     context_cals: tuple = ()
